@@ -7,6 +7,11 @@
    Part 2  string guards of valuerep.py and pydicom's validators.
    Part 3  identifier generation (uid.py / pydicom.uid.generate_uid).
    Part 4  run_* boundary functions for the correspondence run.
+   Part 5  storage of palette colour look-up tables (content.py).
+   Part 6  identifiers of the objects of one multi-object call
+           (seg/pyramid.py create_segmentation_pyramid).
+   Part 7  little-endian serialisation of native Parametric Map frames
+           (pm/sop.py _encode_frame).
 
    No proofs in this file. *)
 From Coq Require Import String ZArith List Bool Arith PeanoNat.
@@ -393,3 +398,149 @@ Definition run_valid (v : vr) (s : str) : val := VB (pydicom_valid v s).
 Definition run_uid (which : Z) (n : Z) : val :=
   vz_list (uid_of (if which =? 0 then prefix_uuid else prefix_hd) n).
 Definition run_uid_valid (s : str) : val := VB (uid_valid s).
+
+(* ------------------------------------------------------------------ *)
+(** * Part 5: look-up table storage (content.py)                        *)
+(* ------------------------------------------------------------------ *)
+
+(* PaletteColorLUT.__init__: the table is stored as the OW value
+   [lut_data.tobytes()]; an 8-bit table with an odd number of entries gets one
+   zero byte so that the value has even length (pydicom would otherwise pad it
+   when WRITING, and the file read back would differ from the object).
+   PaletteColorLUTTransformation.__init__ copies descriptor and stored bytes of
+   its three tables; the [lut_data] property strips the pad byte again. *)
+Definition le16 (v : Z) : list Z := [v mod 256; v / 256].
+Definition lut_bytes (bits : Z) (data : list Z) : list Z :=
+  if bits =? 8 then data else flat_map le16 data.
+Definition lut_pad (bits : Z) (data : list Z) : list Z :=
+  if (bits =? 8) && Z.odd (zlen data) then [0] else [].
+Definition palette_store (bits : Z) (data : list Z) : list Z := lut_bytes bits data ++ lut_pad bits data.
+Definition entries_field (n : Z) : Z := if n =? 65536 then 0 else n.
+Definition lut_descriptor (bits first : Z) (data : list Z) : list Z := [entries_field (zlen data); first; bits].
+
+(* guards of PaletteColorLUT.__init__ (all ValueError): dtype, first mapped
+   value in [0, 2^bits), 1 <= entries <= 2^bits *)
+Definition palette_ok (bits first : Z) (data : list Z) : bool :=
+  ((bits =? 8) || (bits =? 16)) && (0 <=? first) && (first <? 2 ^ bits) &&
+  (1 <=? zlen data) && (zlen data <=? 2 ^ bits).
+Definition palette_lut (bits first : Z) (data : list Z) : res (list Z * list Z) :=
+  if palette_ok bits first data then Ok (lut_descriptor bits first data, palette_store bits data)
+  else Err "ValueError".
+
+(* LUT.__init__ (also VOILUT / ModalityLUT): first mapped value < 2^16, at most
+   2^16 entries for either width, and NO pad byte (the code as it is) *)
+Definition plain_ok (bits first : Z) (data : list Z) : bool :=
+  ((bits =? 8) || (bits =? 16)) && (0 <=? first) && (first <? 65536) &&
+  (1 <=? zlen data) && (zlen data <=? 65536).
+Definition plain_lut (bits first : Z) (data : list Z) : res (list Z * list Z) :=
+  if plain_ok bits first data then Ok (lut_descriptor bits first data, lut_bytes bits data)
+  else Err "ValueError".
+
+(* the [lut_data] property *)
+Fixpoint words16 (l : list Z) : list Z :=
+  match l with a :: b :: r => (a + 256 * b) :: words16 r | _ => [] end.
+Definition palette_read (bits n : Z) (stored : list Z) : list Z :=
+  let d := if (bits =? 8) && Z.odd n && (zlen stored =? n + 1) then removelast stored else stored in
+  if bits =? 8 then d else words16 d.
+
+(* PaletteColorLUTTransformation.__init__ on three tables of one width and one
+   first mapped value: equal numbers of entries or ValueError *)
+Definition palette_tf (bits first : Z) (r g b : list Z) : res (list Z * list (list Z)) :=
+  bind (palette_lut bits first r) (fun pr =>
+  bind (palette_lut bits first g) (fun pg =>
+  bind (palette_lut bits first b) (fun pb =>
+  if (zlen r =? zlen g) && (zlen g =? zlen b)
+  then Ok (fst pr, [snd pr; snd pg; snd pb]) else Err "ValueError"))).
+
+(* ------------------------------------------------------------------ *)
+(** * Part 6: identifiers of the objects built by one call              *)
+(* ------------------------------------------------------------------ *)
+
+(* create_segmentation_pyramid: number of output levels from the numbers of
+   source images / pixel arrays and the down-sampling factors (given in
+   quarters, so that 4 stands for 1.0), with the guards in source order *)
+Fixpoint ascending (l : list Z) : bool :=
+  match l with
+  | a :: (b :: _) as r => (a <=? b) && ascending r
+  | _ => true
+  end.
+Definition pyramid_outputs (n_src n_pix : Z) (factors4 : option (list Z)) : res Z :=
+  if n_src =? 0 then Err "ValueError" else
+  if n_pix =? 0 then Err "ValueError" else
+  if (n_src =? 1) && (n_pix =? 1) then
+    match factors4 with
+    | None => Err "TypeError"
+    | Some fs =>
+        if zlen fs <? 1 then Err "ValueError" else
+        if existsb (fun f => f <=? 4) fs then Err "ValueError" else
+        if negb (ascending fs) then Err "ValueError" else Ok (zlen fs + 1)
+    end
+  else
+    match factors4 with
+    | Some _ => Err "TypeError"
+    | None =>
+        if (1 <? n_src) && (1 <? n_pix) then
+          (if n_src =? n_pix then Ok n_src else Err "ValueError")
+        else Ok (Z.max n_src n_pix)
+    end.
+
+(* the SOP Instance UID of each level: the caller's list (length checked) or
+   one FRESH draw per level *)
+Definition alloc_ids (n : Z) (given : option (list str)) (draws : list Z) : res (list str) :=
+  match given with
+  | Some l => if Z.of_nat (length l) =? n then Ok l else Err "ValueError"
+  | None => Ok (map (uid_of prefix_hd) (firstn (Z.to_nat n) draws))
+  end.
+
+(* observation: every identifier is replaced by the position of its first
+   occurrence; [canon l = 0, 1, 2, ...] exactly when no identifier repeats *)
+Fixpoint str_eqb (a b : str) : bool :=
+  match a, b with
+  | [], [] => true
+  | x :: a', y :: b' => (x =? y) && str_eqb a' b'
+  | _, _ => false
+  end.
+Fixpoint first_index (l : list str) (x : str) : Z :=
+  match l with
+  | [] => 0
+  | y :: r => if str_eqb y x then 0 else 1 + first_index r x
+  end.
+Definition canon (l : list str) : list Z := map (first_index l) l.
+Definition iota (n : nat) : list Z := map Z.of_nat (seq 0 n).
+
+(* ------------------------------------------------------------------ *)
+(** * Part 7: native frames of a Parametric Map                         *)
+(* ------------------------------------------------------------------ *)
+
+(* An array element is the list of its bytes in MEMORY order; [be] says that
+   the array has big-endian byte order.  Pixel data elements are little endian,
+   frames are ordered plane-major / mapping-minor, pixels row-major. *)
+Definition item_le (be : bool) (it : list Z) : list Z := if be then rev it else it.
+Fixpoint le_val (l : list Z) : Z := match l with [] => 0 | b :: r => b + 256 * le_val r end.
+Definition mem_val (be : bool) (it : list Z) : Z := le_val (item_le be it).
+Definition pm_frame (be : bool) (plane : list (list (list Z))) (j : nat) : list Z :=
+  flat_map (fun px => item_le be (nth j px [])) plane.
+Definition pm_native (be : bool) (m : nat) (arr : list (list (list (list Z)))) : list Z :=
+  flat_map (fun plane => flat_map (pm_frame be plane) (seq 0 m)) arr.
+
+(* ------------------------------------------------------------------ *)
+(** * boundary functions for parts 5-7                                  *)
+(* ------------------------------------------------------------------ *)
+Definition vlut (p : list Z * list Z) : val := VL [vz_list (fst p); vz_list (snd p)].
+Definition run_palette_lut (bits first : Z) (data : list Z) : val := vres vlut (palette_lut bits first data).
+Definition run_plain_lut (bits first : Z) (data : list Z) : val := vres vlut (plain_lut bits first data).
+Definition run_palette_tf (bits first : Z) (r g b : list Z) : val :=
+  vres (fun p => VL [vz_list (fst p); vz_list2 (snd p)]) (palette_tf bits first r g b).
+Definition run_palette_read (bits : Z) (data : list Z) : val :=
+  vz_list (palette_read bits (zlen data) (palette_store bits data)).
+
+(* [given]: the caller's identifiers as draws (uid_of prefix_hd d); None: the
+   library draws, and distinct draws are what secrets.randbelow is assumed to
+   give (checked at run time by the uid_unique kind) *)
+Definition run_pyramid_ids (n_src n_pix : Z) (factors4 : option (list Z)) (given : option (list Z)) : val :=
+  vres (fun l => VL [VZ (Z.of_nat (length l)); vz_list (canon l)])
+       (bind (pyramid_outputs n_src n_pix factors4) (fun n =>
+        alloc_ids n (option_map (map (uid_of prefix_hd)) given) (iota (Z.to_nat n)))).
+
+Definition run_pm_native (be : bool) (m : Z) (arr : list (list (list (list Z)))) : val :=
+  vz_list (pm_native be (Z.to_nat m) arr).
